@@ -19,10 +19,12 @@ def sh(cmd, **kw):
     return subprocess.run(cmd, shell=isinstance(cmd, str), capture_output=True, text=True, **kw)
 
 
-def build_suite(wt):
+def build_suite(wt, run=True):
     b = sh("cmake -G Ninja -S %s -B %s/_build -DCMAKE_BUILD_TYPE=RelWithDebInfo >/dev/null && cmake --build %s/_build 2>&1 | tail -3" % (wt, wt, wt))
     if not os.path.exists("%s/_build/test/testbee2" % wt):
         return None, b.stdout[-500:]
+    if not run:
+        return {"built": True}, ""
     t = sh("%s/_build/test/testbee2" % wt, timeout=900)
     return {"ok": t.stdout.count("Test: OK"), "err": t.stdout.count("Test: Err"), "rc": t.returncode}, ""
 
@@ -88,7 +90,7 @@ def main():
             try:
                 demo = os.path.join(out, "demo.c")
                 # unchanged library
-                suite0, msg = build_suite(wt)
+                suite0, msg = build_suite(wt, run=False)  # the unchanged suite is the pinned baseline
                 if os.path.exists(demo) and suite0:
                     meta["demo_unchanged"] = run_demo(wt, demo, sid + "a")
                 a = sh(["git", "-C", wt, "apply", patch])
